@@ -19,7 +19,7 @@ BadComModes == {"bogus", "ang", "lin", "", "near"}
 
 Requests ==
   [sorted : {"ok", "reversed", "pad_front", "pad_middle"}, odd : BOOLEAN, uhf : BOOLEAN, mult_ok : BOOLEAN, conv : {0, 1, 2}, sp2 : BOOLEAN,
-   exc : {"none", "cis", "rpa", "bogus"}, nstates : BOOLEAN, homog : BOOLEAN, active : {0, 1},
+   exc : {"none", "cis", "rpa", "bogus"}, nstates : BOOLEAN, homog : BOOLEAN, qmix : BOOLEAN, active : {0, 1},       \* qmix: the second molecule carries two electrons less
    com : {"nomd", "none", "linear", "angular"} \cup BadComModes]
 
 \* stages in execution order
@@ -38,6 +38,8 @@ Verdict(q) ==
     ELSE IF q.uhf /\ q.sp2 THEN Rej("scf", "ValueError")                   \* make_Pnew_factory
     ELSE IF q.uhf /\ q.conv = 2 THEN Rej("scf", "NotImplementedError")     \* SCF.forward
     ELSE IF q.active > 0 /\ q.exc = "none" THEN Rej("energy", "Exception") \* after the SCF, before publication
+    \* same species but different electron counts: the batched CIS / RPA solvers need equal occupations (rcis_batch, rpa)
+    ELSE IF q.exc \in {"cis", "rpa"} /\ q.homog /\ q.qmix THEN Rej("energy", "ValueError")
     ELSE IF q.exc = "bogus" /\ q.homog THEN Rej("energy", "Exception")
     ELSE IF q.exc \in {"rpa", "bogus"} /\ ~q.homog THEN Rej("energy", "NotImplementedError")
     \* forces on an excited active state are analytical and need a homogeneous batch
@@ -53,6 +55,7 @@ DocViolated(q) ==
     \/ (q.uhf /\ ~q.mult_ok)
     \/ (q.uhf /\ (q.sp2 \/ q.conv = 2 \/ q.exc # "none"))
     \/ (q.exc = "rpa" /\ ~q.homog)
+    \/ (q.exc \in {"cis", "rpa"} /\ q.homog /\ q.qmix)
     \/ (q.exc = "cis" /\ ~q.homog /\ q.active > 0)
     \/ (q.active > 0 /\ q.exc = "none")
     \/ q.com \in BadComModes
@@ -60,7 +63,7 @@ DocViolated(q) ==
 B2N(b) == IF b THEN 1 ELSE 0
 \* number of violated preconditions / limitations of a request
 Faults(q) == B2N(q.sorted # "ok") + B2N(~q.uhf /\ q.odd) + B2N(q.uhf /\ ~q.mult_ok) + B2N(q.uhf /\ q.sp2) + B2N(q.uhf /\ q.conv = 2)
-             + B2N(q.uhf /\ q.exc # "none") + B2N(q.exc # "none" /\ ~q.nstates) + B2N(q.exc = "bogus") + B2N(q.exc = "rpa" /\ ~q.homog)
+             + B2N(q.uhf /\ q.exc # "none") + B2N(q.exc # "none" /\ ~q.nstates) + B2N(q.exc = "bogus") + B2N(q.exc = "rpa" /\ ~q.homog) + B2N(q.exc \in {"cis", "rpa"} /\ q.homog /\ q.qmix)
              + B2N(q.exc = "cis" /\ ~q.homog /\ q.active > 0) + B2N(q.active > 0 /\ q.exc = "none") + B2N(q.com \in BadComModes)
 
 Init == r \in Requests
